@@ -100,6 +100,17 @@ def value_for(name, raw):
     return bool(raw % 2)
 
 
+def fit_width(real, name, value):
+    """Implicit precondition of element writes: the value fits the width of the
+    string dtype (array() sizes string annotations by their longest value, NumPy
+    truncates longer strings silently).  Longer values are cut *before* the write,
+    for the model and the real object alike."""
+    if isinstance(value, str):
+        width = real.get_annotation(name).dtype.itemsize // 4
+        return value[:width]
+    return value
+
+
 # --------------------------------------------------------------------------
 # plain-data spec -> model
 # --------------------------------------------------------------------------
@@ -837,7 +848,7 @@ class Interp:
             self.structural(had)
             self.dirty.add(slot % NSLOTS)
 
-    def _atom_for(self, mc, vals, shift):
+    def _atom_for(self, mc, vals, shift, real):
         mand = dict(zip([n for n, _ in M.MANDATORY], vals))
         ann = {}
         for name in mc.cats:
@@ -845,9 +856,9 @@ class Interp:
                 ann[name] = self.uid[0]
                 self.uid[0] += 1
             elif name in mand:
-                ann[name] = mand[name]
+                ann[name] = fit_width(real, name, mand[name])
             else:
-                ann[name] = value_for(name, shift)
+                ann[name] = fit_width(real, name, value_for(name, shift))
         return {"ann": ann, "coord": (shift * 0.25, shift * 0.5 + 1.0, -shift * 0.25)}
 
     def op_set(self, slot, raw, vals, shift, many, bad):
@@ -858,7 +869,7 @@ class Interp:
         k = slot % NSLOTS
         self.before_inplace_write(k)
         if mc.kind == "array":
-            matom = self._atom_for(mc, vals, shift)
+            matom = self._atom_for(mc, vals, shift, real)
             atom = real_atom(matom)
             if many is not None and mc.n:
                 d = ("arr", list(dict.fromkeys(r % (2 * mc.n) - mc.n for r in many)), "int64")
@@ -938,7 +949,7 @@ class Interp:
         names = [n for n in mc.cats if n != "uid"]
         name = names[cat % len(names)]
         i = raw % (2 * mc.n) - mc.n
-        value = value_for(name, v)
+        value = fit_width(real, name, value_for(name, v))
         self.before_inplace_write(slot % NSLOTS)
         target = getattr(real, name) if via_attr else real.get_annotation(name)
         target[i] = value
@@ -1229,9 +1240,9 @@ def run_copy_indep(case):
         i = v % n
         for name in list(mmut.cats):
             old = mmut.ann[i][name]
-            new = value_for(name, v + 1) if name != "uid" else 10**6
+            new = fit_width(mut, name, value_for(name, v + 1)) if name != "uid" else 10**6
             if M.same_value(old, new):
-                new = value_for(name, v + 2) if name != "uid" else 10**6 + 1
+                new = fit_width(mut, name, value_for(name, v + 2)) if name != "uid" else 10**6 + 1
             mut.get_annotation(name)[i] = new
             mmut.ann[i][name] = new
         if not both("annotation element writes"):
@@ -1261,7 +1272,7 @@ def run_copy_indep(case):
             if not both("bonds.remove_bond"):
                 return o
     if mmut.kind == "array" and n > 0:
-        matom = {"ann": {name: (value_for(name, v + 3) if name != "uid" else 10**6 + 2) for name in mmut.cats}, "coord": (0.5, -0.5, 8.0)}
+        matom = {"ann": {name: (fit_width(mut, name, value_for(name, v + 3)) if name != "uid" else 10**6 + 2) for name in mmut.cats}, "coord": (0.5, -0.5, 8.0)}
         mut[-1] = real_atom(matom)
         mmut.set_atoms(("int", -1), matom)
         if not both("element assignment"):
